@@ -10,7 +10,7 @@ From Coq Require Import List ZArith NArith Bool Arith Lia QArith Qcanon Qcabs.
 From LMBase Require Import Res ListX IEEE.
 From Coq Require Import Reals Qreals Qabs.
 From Flocq Require Import Core BinarySingleNaN.
-From LMPwm Require Import GenComplement PwmModel PwmCheck PwmProofs PwmExact PwmExact2 PwmF32 PwmCheckSound PwmF32Rescale PwmF32Freq.
+From LMPwm Require Import GenComplement PwmModel PwmCheck PwmProofs PwmExact PwmExact2 PwmF32 PwmCheckSound PwmF32Rescale PwmF32Freq PwmF32FreqCell.
 Import ListNotations.
 Local Open Scope nat_scope.
 
@@ -102,6 +102,40 @@ Proof.
   - exact (to_freq_row_sum_f32 pseudo row H1 H2 H3 H4).
   - intros Hn. exact (E_small _ Hn).
 Qed.
+
+(* binary32 (Flocq): every computed frequency cell is within G K * X/T + eta of the exact
+   X/T = (count + pseudocount) / exact row total, G K = 1/(1-u)^(K+5) - 1 (u32 counts,
+   finite nonnegative pseudocounts, finite positive binary32 total, finite quotients) ... *)
+Theorem C09_freq_cell_f32 :
+  forall (pseudo : list F32.t) (row : list N),
+    Forall (fun c => (c < 2 ^ 32)%N) row ->
+    Forall (fun p => is_finite p = true /\ (0 <= B2R p)%R) pseudo ->
+    let dst := map2 (fun x p => F32.add (F32.of_Z (Z.of_N x)) p) row pseudo in
+    let s := fsum F32ops dst in
+    is_finite s = true -> (0 < B2R s)%R ->
+    Forall (fun x => is_finite x = true) (to_freq_row F32ops pseudo row) ->
+    let T := Rsum (map2 (fun c p => (IZR (Z.of_N c) + B2R p)%R) row pseudo) in
+    (0 < T)%R /\
+    forall k, k < length row -> k < length pseudo ->
+      let X := (IZR (Z.of_N (nth k row 0%N)) + B2R (nth k pseudo F32.zero))%R in
+      (Rabs (B2R (nth k (to_freq_row F32ops pseudo row) F32.zero) - X / T) <= G (length dst) * (X / T) + eta32)%R.
+Proof. exact freq_cell_error_unfolded. Qed.
+
+(* ... hence (G 21 + eta <= 1e-5, row sum within 2^-19) the binary32 model passes the
+   extracted frequency check with the driver's eps = 1e-5 for every row of at most 21
+   u32 counts and finite nonnegative pseudocounts whose total does not overflow: a
+   PROPFAIL "frequency-not-(count+pseudo)/total" cannot be caused by rounding *)
+Theorem C09_freq_row_model_passes_check :
+  forall (pseudo : list F32.t) (row : list N),
+    length pseudo = length row -> length row <= 21 ->
+    Forall (fun c => (c < 2 ^ 32)%N) row ->
+    Forall (fun p => is_finite p = true /\ (0 <= B2R p)%R) pseudo ->
+    let dst := map2 (fun x p => F32.add (F32.of_Z (Z.of_N x)) p) row pseudo in
+    let s := fsum F32ops dst in
+    is_finite s = true ->
+    Forall (fun x => is_finite x = true) (to_freq_row F32ops pseudo row) ->
+    check_freq_row (1 # 100000) pseudo row (to_freq_row F32ops pseudo row) = true.
+Proof. exact freq_row_model_passes_check. Qed.
 
 (* ---- weights ---- *)
 
